@@ -1,6 +1,6 @@
 (* C10 -- split-horizon: each query goes to exactly the matching forwarder.
    Theorems only. *)
-From NX Require Import Bytes Forwarder ConfigFacts.
+From NX Require Import Bytes Forwarder ConfigFacts ForwarderLabels.
 Open Scope Z_scope.
 
 (* exactly one upstream receives every query *)
@@ -34,6 +34,14 @@ Theorem C10_match_only : forall d u q, d <> [] -> fwd_match (mkFwd d u) q = true
   lower q = lower d \/ exists pre, lower q = pre ++ 46 :: lower d.
 Proof. exact fwd_match_only. Qed.
 Print Assumptions C10_match_only.
+
+(* in the words of the property: a forwarder for a domain takes the query iff the domain's labels are a
+   suffix of the query's labels (compared case-insensitively) - never a name that only shares a string suffix *)
+Theorem C10_match_is_label_suffix : forall dl ql u,
+  dl <> [] -> Forall wf_label dl -> Forall wf_label ql ->
+  fwd_match (mkFwd (name_string dl) u) (name_string ql) = label_suffix dl ql.
+Proof. exact fwd_match_labels. Qed.
+Print Assumptions C10_match_is_label_suffix.
 
 (* letter case of the query name never changes the decision *)
 Theorem C10_case_insensitive : forall f q q', lower q = lower q' -> fwd_match f q = fwd_match f q'.
